@@ -5,7 +5,8 @@
                      up to thin regions: every x outside the polytopes it declared infeasible)
    Paths are those of the RESULT tree (a forwarded node has a shorter path, hence a larger region). *)
 From AT Require Import Num Vec Aff PTree Cells Abs Cache Elim ElimEval ElimCache CPrune CPruneCache ElimExample RemoveAxesCache
-  Ops Reduce Schema WfC OpsWf ElimWf CPruneWf History CacheHistory CacheHistoryRun CacheHistoryAxes.
+  Ops Reduce Schema WfC OpsWf ElimWf CPruneWf History CacheHistory CacheHistoryRun CacheHistoryAxes
+  CPruneEval EdgeRegion KPrune KPruneEval KElimCache KPruneExample KPruneCache.
 
 (* points returned by the witness-repair heuristic lie in the polytope they were asked for: the acceptance test of
    mirror_points (normalised rows, positive factors nu_i, margin eps = 1e-10) implies membership *)
@@ -102,3 +103,77 @@ Print Assumptions C05_reduce.
 Print Assumptions C05_elim_marked_alone.
 Print Assumptions C05_remove_axes_restarts.
 Print Assumptions C05_history_nonvacuous.
+
+(* ---- the pruned composition / the pruned operators for EVERY branching factor K (Pwl/KPrune.kprune; AffTree<4> since the
+   repair of D20): the nodes of the receiver keep state and path, every node the composition creates is Indeterminate
+   (is_edge_feasible reads the cache, it never writes), a forwarded child is such a new node.  For every oracle -- no
+   assumption on the LP answers or on the repair heuristic -- every schema, every K, every lhs, every receiver.
+   kwit_ok / kmarks: the K-ary forms of wit_ok / marks_ok with the per-row edge regions (EdgeRegion.label_rows). ---- *)
+Theorem C05_kprune_witnesses : forall o tol s K L t q k,
+  KElimCache.kwit_ok tol q t -> KElimCache.kwit_ok tol q (fst (KPrune.kprune o tol s K L t q k)).
+Proof. exact kprune_wit. Qed.
+Theorem C05_kprune_marks : forall o tol s K L x t q k,
+  KPruneEval.kmarks x q t -> KPruneEval.kmarks x q (fst (KPrune.kprune o tol s K L t q k)).
+Proof. exact kprune_marks. Qed.
+(* compose::<true> and tree (op) tree with pruning *)
+Theorem C05_kcompose_prune_caches : forall o tol K t L,
+  (KElimCache.kwit_ok tol [] t -> KElimCache.kwit_ok tol [] (fst (KPrune.kcompose_prune o tol K t L))) /\
+  (forall x, KPruneEval.kmarks x [] t -> KPruneEval.kmarks x [] (fst (KPrune.kcompose_prune o tol K t L))).
+Proof. exact kcompose_prune_caches. Qed.
+Theorem C05_kop_prune_caches : forall o tol K fo t L,
+  (KElimCache.kwit_ok tol [] t -> KElimCache.kwit_ok tol [] (fst (KPrune.kprune o tol (op_schema fo) K L t [] k0))) /\
+  (forall x, KPruneEval.kmarks x [] t -> KPruneEval.kmarks x [] (fst (KPrune.kprune o tol (op_schema fo) K L t [] k0))).
+Proof. exact ktop_prune_caches. Qed.
+(* function and caches together, under the hypotheses of the function part (C03_kprune) *)
+Theorem C05_kcompose_prune_sound : forall o tol K t L x,
+  osound o x -> kary K L -> kok comp_schema t -> KPruneEval.kmarks x [] t -> KElimCache.kwit_ok tol [] t ->
+  kev (fst (kcompose_prune o tol K t L)) x = eval (compose (kerase t) L) x /\
+  KPruneEval.kmarks x [] (fst (kcompose_prune o tol K t L)) /\ KElimCache.kwit_ok tol [] (fst (kcompose_prune o tol K t L)).
+Proof. exact kcompose_prune_sound. Qed.
+(* K = 2: on binary operands these are the binary statements C05_prune_witnesses / C05_prune_marks *)
+Theorem C05_kprune_binary : forall o tol s L t q k x, bin2 L -> cbin t -> terms_ok s t ->
+  cbin (fst (cprune o tol s L t q k)) -> cleafok (fst (cprune o tol s L t q k)) ->
+  (KElimCache.kwit_ok tol q (fst (KPrune.kprune o tol s 2 L (kemb t) q k)) <-> wit_ok tol q (fst (cprune o tol s L t q k))) /\
+  (KPruneEval.kmarks x q (fst (KPrune.kprune o tol s 2 L (kemb t) q k)) <-> marks_ok x q (fst (cprune o tol s L t q k))).
+Proof. exact kprune_binary_cache. Qed.
+(* non-vacuity at K = 4: a receiver with three witness lists and one Infeasible mark, exact oracle; with the full argument
+   two cache entries survive (two terminals are forwarded over), with the partial argument all four; every stored
+   witness passes the executable check, every mark has a Farkas certificate *)
+Example C05_kprune_nonvacuous :
+  (forall x, length x = 1%nat -> osound (kx_oracle 1) x) /\ mir_sound (kx_oracle 1) 0 /\
+  kary 4 kx_L /\ kary 4 kx_Lp /\ kok comp_schema kx_tw /\
+  KElimCache.kwit_ok 0 [] kx_tw /\ (forall x, length x = 1%nat -> KPruneEval.kmarks x [] kx_tw) /\
+  kn_wit kx_tw = 3%nat /\ kn_inf kx_tw = 1%nat /\
+  (kn_wit (fst (kcompose_prune (kx_oracle 1) 0 4 kx_tw kx_L)) = 2%nat /\
+   kn_inf (fst (kcompose_prune (kx_oracle 1) 0 4 kx_tw kx_L)) = 0%nat /\
+   k_lp (snd (kcompose_prune (kx_oracle 1) 0 4 kx_tw kx_L)) = 6%nat /\
+   kwit_okb 0 [] (fst (kcompose_prune (kx_oracle 1) 0 4 kx_tw kx_L)) = true /\
+   kmarks_cert 1 [] (fst (kcompose_prune (kx_oracle 1) 0 4 kx_tw kx_L)) = true) /\
+  (kn_wit (fst (kcompose_prune (kx_oracle 1) 0 4 kx_tw kx_Lp)) = 3%nat /\
+   kn_inf (fst (kcompose_prune (kx_oracle 1) 0 4 kx_tw kx_Lp)) = 1%nat /\
+   k_lp (snd (kcompose_prune (kx_oracle 1) 0 4 kx_tw kx_Lp)) = 5%nat /\
+   kwit_okb 0 [] (fst (kcompose_prune (kx_oracle 1) 0 4 kx_tw kx_Lp)) = true /\
+   kmarks_cert 1 [] (fst (kcompose_prune (kx_oracle 1) 0 4 kx_tw kx_Lp)) = true) /\
+  (forall x, length x = 1%nat ->
+     kev (fst (kcompose_prune (kx_oracle 1) 0 4 kx_tw kx_L)) x = eval (compose (kerase kx_tw) kx_L) x /\
+     KPruneEval.kmarks x [] (fst (kcompose_prune (kx_oracle 1) 0 4 kx_tw kx_L)) /\
+     KElimCache.kwit_ok 0 [] (fst (kcompose_prune (kx_oracle 1) 0 4 kx_tw kx_L)) /\
+     kev (fst (kcompose_prune (kx_oracle 1) 0 4 kx_tw kx_Lp)) x = eval (compose (kerase kx_tw) kx_Lp) x /\
+     KPruneEval.kmarks x [] (fst (kcompose_prune (kx_oracle 1) 0 4 kx_tw kx_Lp)) /\
+     KElimCache.kwit_ok 0 [] (fst (kcompose_prune (kx_oracle 1) 0 4 kx_tw kx_Lp))).
+Proof. exact kx_cache. Qed.
+(* the executable checks are sound *)
+Theorem C05_kwit_check_sound : forall tol t q, kwit_okb tol q t = true -> KElimCache.kwit_ok tol q t.
+Proof. exact kwit_okb_sound. Qed.
+Theorem C05_kmarks_cert_sound : forall n x, length x = n -> forall t q, kmarks_cert n q t = true -> KPruneEval.kmarks x q t.
+Proof. exact kmarks_cert_sound. Qed.
+
+Print Assumptions C05_kprune_witnesses.
+Print Assumptions C05_kprune_marks.
+Print Assumptions C05_kcompose_prune_caches.
+Print Assumptions C05_kop_prune_caches.
+Print Assumptions C05_kcompose_prune_sound.
+Print Assumptions C05_kprune_binary.
+Print Assumptions C05_kprune_nonvacuous.
+Print Assumptions C05_kwit_check_sound.
+Print Assumptions C05_kmarks_cert_sound.
